@@ -789,3 +789,48 @@ func (g *gen) malformed(i int) scenario {
 	g.tag("malformed-body")
 	return scenario{family: "malformed", body: []byte(b), tree: t, order: order, rules: rl, n: n}
 }
+
+// fixedWitness replays the inputs on which the pinned tree violated C09 before the fix commits
+// (D09a f4f787a, D09b de2dd34, D09c 9edb119), singly and inside a batch.
+func (g *gen) fixedWitness(k int) scenario {
+	rl := newRules()
+	pass := func(name string, rep proxykit.Reply) *J {
+		rl.byKey[frameKey(name, nil)] = rep
+		return jobj().set("jsonrpc", jstr("2.0")).set("id", jstr("id-"+name)).set("method", jstr(name))
+	}
+	ok := pass("eth_fixed_ok", result(`"fine"`))
+	var tree *J
+	fam := ""
+	switch k {
+	case 0:
+		tree, fam = pass("eth_fixed_a0", proxykit.Reply{Kind: proxykit.ReplyHTTPError, Status: 500}), "fixed-D09a"
+	case 1:
+		tree, fam = pass("eth_fixed_a1", proxykit.Reply{Kind: proxykit.ReplyHTTPError, Status: 500, Body: []byte("oops"), ContentType: "text/plain"}), "fixed-D09a"
+	case 2:
+		tree, fam = jarr(ok, pass("eth_fixed_a2", proxykit.Reply{Kind: proxykit.ReplyHTTPError, Status: 502, Body: []byte(`{"result":1}`)})), "fixed-D09a"
+	case 3:
+		tree, fam = jobj().set("jsonrpc", jstr("2.0")).set("id", jnum("1")).set("method", jstr("eth_sendTransaction")).set("params", jarr(jobj().set("from", jstr("0x1234")))), "fixed-D09b"
+	case 4:
+		tree, fam = jarr(ok, jobj().set("jsonrpc", jstr("2.0")).set("id", jnum("2")).set("method", jstr("eth_sendTransaction")).set("params", jarr(jobj().set("from", jnull()).set("gas", jstr("0x1"))))), "fixed-D09b"
+	case 5:
+		tree, fam = pass("eth_fixed_c0", proxykit.Reply{Kind: proxykit.ReplyRawBody, Body: []byte("null")}), "fixed-D09c"
+	case 6:
+		tree, fam = jarr(pass("eth_fixed_c1", proxykit.Reply{Kind: proxykit.ReplyRawBody, Body: []byte("null")})), "fixed-D09c"
+	case 7:
+		tree, fam = jarr(ok, pass("eth_fixed_c2", proxykit.Reply{Kind: proxykit.ReplyRawBody, Body: []byte(" null ")}), ok), "fixed-D09c"
+	default:
+		// nonce lookup answered with the null body
+		rl.countDef = proxykit.Reply{Kind: proxykit.ReplyRawBody, Body: []byte("null")}
+		tree, fam = jarr(jobj().set("jsonrpc", jstr("2.0")).set("id", jnum("3")).set("method", jstr("eth_sendTransaction")).set("params", jarr(jobj().set("from", jstr(g.keys[0].Hex())).set("gas", jstr("0x5208"))))), "fixed-D09c"
+	}
+	n := 1
+	if tree.K == 4 {
+		n = len(tree.A)
+	}
+	order := make([]int, n)
+	for i := range order {
+		order[i] = i
+	}
+	g.tag(fam)
+	return scenario{family: fam, body: []byte(tree.Text(0)), tree: tree, order: order, rules: rl, n: n}
+}
